@@ -259,6 +259,7 @@ def mechanical_rewrites(text: str, toks: List[Tok], r12: Optional[str] = None, o
     #        R.map_err(|P| B)        -> (match R { Ok(vx_o) => Ok(vx_o), Err(P) => Err(B) })
     #        R.unwrap_or_else(|| B)  -> (match R { Some(vx_o) => vx_o, None => B })      (|P| B: the Result form)
     #        R.ok_or_else(|| B)      -> (match R { Some(vx_o) => Ok(vx_o), None => Err(B) })
+    #        R.or_else(|P| B)        -> (match R { Ok(vx_o) => Ok(vx_o), Err(P) => (B) })              (the Result form)
     #      The Option forms are used for map / and_then / filter; on any other receiver type (Result, an iterator) the rewritten text
     #      does not type-check and the function is emitted unverified (undecided) - never a wrong verdict.  Closures whose body
     #      leaves the closure (`return`, `?`, `break`, `continue`) are left alone.  After the main pass, so that R12's opening
@@ -279,13 +280,11 @@ def mechanical_rewrites(text: str, toks: List[Tok], r12: Optional[str] = None, o
         if b0 < 3 or toks[b0 - 1].text != "(" or toks[b0 - 3].text != "." or be >= n or toks[be].text != ")":
             continue
         name = toks[b0 - 2].text
-        if name not in ("map", "and_then", "filter", "map_err", "unwrap_or_else", "ok_or_else", "is_some_and", "map_or"):
+        if name not in ("map", "and_then", "filter", "map_err", "unwrap_or_else", "ok_or_else", "is_some_and", "map_or", "or_else"):
             continue
         if (name == "map_or") != (dflt is not None):
             continue
         if any(t.text in ("return", "?", "break", "continue") for t in toks[bs:be]):
-            continue
-        if any((x[0] > b1 and x[0] < be) for x in open_closures):      # nested un-annotated closure: leave the outer one alone
             continue
         ptoks = toks[b1 + 1:b2] if toks[b1].text == "|" else []
         d, cut = 0, None
@@ -305,7 +304,7 @@ def mechanical_rewrites(text: str, toks: List[Tok], r12: Optional[str] = None, o
         if cut is not None:
             ptoks = ptoks[:cut]
         pat = text[ptoks[0].start:ptoks[-1].end] if ptoks else None
-        if name in ("map", "and_then", "filter", "map_err", "is_some_and", "map_or") and pat is None:
+        if name in ("map", "and_then", "filter", "map_err", "is_some_and", "map_or", "or_else") and pat is None:
             continue
         if name == "ok_or_else" and pat is not None:
             continue
@@ -322,6 +321,7 @@ def mechanical_rewrites(text: str, toks: List[Tok], r12: Optional[str] = None, o
                                (" { Ok(vx_o) => vx_o, Err(%s) => (" % pat, ") })")),
             "ok_or_else": (" { Some(vx_o) => Ok(vx_o), None => Err(", ") })"),
             "is_some_and": (" { Some(%s) => (" % pat, "), None => false })"),
+            "or_else": (" { Ok(vx_o) => Ok(vx_o), Err(%s) => (" % pat, ") })"),
             "map_or": (" { Some(%s) => (" % pat, "), None => %s })" % dflt),
         }[name]
         edits.append((toks[k].start, toks[k].start, "(match ", "R20a"))
@@ -1011,6 +1011,19 @@ class Splicer:
                             if prev:
                                 ti, why = prev[-1], None
                                 self.log.append("%s: anchor by ordinal lost, placed by call %s" % (key, akv["call"]))
+                    if "expect" in akv and kw is not None and os.environ.get("VX_AUDIT_UNIQUE"):
+                        na = len([i for (i, d) in starts if toks[i].text == kw and re.match(akv["expect"], text[toks[i].start:])])
+                        self.log.append("AUDIT %s | %s | any-depth matches=%d unique_flag=%s" % (key, args.strip(), na, akv.get("unique")))
+                    if why is not None and "expect" in akv and kw is not None and akv.get("unique") == "1":
+                        # third way, only for anchors marked unique=1 (on the unchanged tree exactly one statement of the body, at any
+                        # depth, starts with the keyword and looks like the expected text): the statement was moved to another
+                        # nesting depth (a condition split into nested ifs, an extra block); if there is still exactly one such
+                        # statement, that is the place.  Without the mark a surviving sibling could be mistaken for the lost
+                        # statement and a misplaced hint would turn into a failed proof (seen with preserved/r12).
+                        anyd = [i for (i, d) in starts if toks[i].text == kw and re.match(akv["expect"], text[toks[i].start:])]
+                        if len(anyd) == 1:
+                            ti, why = anyd[0], None
+                            self.log.append("%s: anchor by depth lost, placed at the only statement matching /%s/" % (key, akv["expect"]))
                     if why is not None:
                         raise SpliceError("lost anchor: %s: %s" % (key, why))
                 if args.strip().startswith("tail") and "expect" in akv and not re.match(akv["expect"], text[toks[ti].start:]):
